@@ -41,6 +41,7 @@ from mc.explore import bfs
 from tracklib.core.obs_time import ObsTime
 from tracklib.core.obs import Obs
 from tracklib.core.track import Track
+from tracklib.core.track_collection import TrackCollection
 from tracklib.core.obs_coords import ENUCoords, GeoCoords, ECEFCoords
 from tracklib.core.network import Network, Node, Edge
 from tracklib.io.track_writer import TrackWriter
@@ -144,6 +145,7 @@ class _Tmp(object):
         base = "/dev/shm" if os.path.isdir("/dev/shm") and os.access("/dev/shm", os.W_OK) else None
         self.prev = _DIR
         self.d = tempfile.mkdtemp(prefix="verif_c13_%d_" % os.getpid(), dir=base)
+        os.mkdir(os.path.join(self.d, "gd"))          # target directory of the one-file-per-track GPX export
         _DIR = self.d
         _DISK.clear()
         return self
@@ -291,6 +293,18 @@ def call_read_csv(name, srid, layout, sep, mode, time_fmt):
 
 def call_write_gpx(track, name):
     return _g(TrackWriter.writeToGpx, track, _path(name))
+
+
+def call_write_gpx_dir(named_rows, dirname):
+    """One file per track (<tid>.gpx) into an existing directory."""
+    def run():
+        coll = TrackCollection()
+        for tid, rows in named_rows:
+            t = build_track("GEO", rows)
+            t.tid = tid
+            coll.addTrack(t)
+        return TrackWriter.writeToGpx(coll, _path(dirname), False, False)
+    return _g(run)
 
 
 def call_read_gpx(name, srid, mode):
@@ -706,12 +720,14 @@ def hist_events(variant, tier="quick"):
     for k in range(len(H_CSV)):
         ev.append(("wcsv", k))
     ev.append(("wgpx", 0))
+    ev.append(("wgpx", 1))            # a two-track collection exported with one file per track into a directory
     for n in range(len(H_NET)):
         ev.append(("wnet", n))
     for k in range(len(H_CSV)):
         ev.append(("rcsv", k, "explicit"))
         ev.append(("rcsv", k, "conv"))
     ev.append(("rgpx", 0))
+    ev.append(("rgpx", 1))
     for n in range(len(H_NET)):
         ev.append(("rnet", n))
     ev.append(("wkt", 0))
@@ -723,7 +739,7 @@ def _fname(ev):
     if k in ("wcsv", "rcsv"):
         return "c%d.csv" % ev[1]
     if k in ("wgpx", "rgpx"):
-        return "g.gpx"
+        return "g.gpx" if ev[1] == 0 else "gd/ga.gpx"
     if k in ("wnet", "rnet"):
         return "n%d.csv" % ev[1]
     return None
@@ -816,6 +832,10 @@ def run_event(w, ev):
     elif k == "rcsv":
         srid, layout, sep, h, j = H_CSV[ev[1]]
         res = call_read_csv(name, srid, layout, sep, ev[2], w.meta.get(name))
+    elif k == "wgpx" and ev[1] == 1:
+        _unlink(name)
+        _unlink("gd/gb.gpx")
+        res = call_write_gpx_dir([("ga", track_rows("GEO", v, 5)), ("gb", track_rows("GEO", v, 1))], "gd")
     elif k == "wgpx":
         _unlink(name)
         res = call_write_gpx(build_track("GEO", track_rows("GEO", v, 5)), name)
